@@ -107,9 +107,28 @@ impl Prop for C03 {
             out.push(known(format!("text inside {:?} regions is dropped", kinds), "C03-known-drop-regions"));
             return out;
         }
-        let gs: String = got.iter().collect();
-        let fs: String = v_full.iter().collect();
-        out.push(viol(format!("{} of the document's visible characters: output has {:?}, document has {:?}", if sequence { "sequence" } else { "multiset" }, gs, fs)));
+        // known finding: with min_wrap_width(0) every column's minimum width is 0, the table never falls back to the
+        // stacked layout and the shrink loop may take a column with text down to width 0; its cells are dropped
+        if c.cfg.min_wrap == 0 && has_table && !c.cfg.raw && sub(&mg, &mf) {
+            out.push(known("a table column with text is shrunk to width 0 under min_wrap_width(0) and its cells are dropped".to_string(), "C03-min-wrap-0-zero-width-column"));
+            return out;
+        }
+        // describe the difference: first position where the sequences part, plus the multiset balance
+        let first = got.iter().zip(v_full.iter()).position(|(a, b)| a != b).unwrap_or(got.len().min(v_full.len()));
+        let ctx = |v: &Vec<char>| -> String { v[first.saturating_sub(12)..(first + 12).min(v.len())].iter().collect() };
+        let mut bal: Vec<String> = Vec::new();
+        for (k, n) in &mf {
+            let g = mg.get(k).copied().unwrap_or(0);
+            if g != *n {
+                bal.push(format!("{k:?}: document {n}, output {g}"));
+            }
+        }
+        for (k, g) in &mg {
+            if !mf.contains_key(k) {
+                bal.push(format!("{k:?}: document 0, output {g}"));
+            }
+        }
+        out.push(viol(format!("{} of the document's visible characters differs at token character {first}: output …{:?}…, document …{:?}…; counts: {}", if sequence { "sequence" } else { "multiset" }, ctx(&got), ctx(&v_full), bal.join("; "))));
         out
     }
     fn project(&self, _c: &Case, o: &Obs) -> String {
